@@ -36,6 +36,12 @@ type Cfg struct {
 	// PrintObjects allows objects (any number of fields) as print arguments and to_string/to_json
 	// receivers: their rendering is not documented, so only determinism / agreement can be asked.
 	PrintObjects bool
+	// Pure: expression operands are side-effect free (no calls of user functions, no statements in
+	// value blocks, no throwing try-expressions, no pop); effects happen at statement level only.
+	Pure bool
+	// SmallNums: numeric literals stay far from overflow / rounding boundaries; both operands of
+	// an integer multiplication are small non-negative literals.
+	SmallNums bool
 
 	Off map[string]bool // gates: feature names switched off
 }
@@ -98,6 +104,9 @@ var strPool = []string{"", "a", "b", "ab", "abc", "hello", "Hello World", "x y",
 var uniPool = []string{"é", "ß", "日本", "𝄞", "é", "aé", "ñandú"}
 
 func (g *G) intLit() hs.Expr {
+	if g.c.SmallNums {
+		return hs.IntLit{V: int64(g.intn("smallNum", -1000, 1000))}
+	}
 	switch g.pick("intKind", 4) {
 	case 0:
 		return hs.IntLit{V: intPool[g.pick("intPool", len(intPool))]}
@@ -109,6 +118,14 @@ func (g *G) intLit() hs.Expr {
 }
 func (g *G) smallInt(lo, hi int) hs.Expr { return hs.IntLit{V: int64(g.intn("small", lo, hi))} }
 func (g *G) floatLit() hs.Expr {
+	if g.c.SmallNums {
+		pool := []float64{0.5, 1.5, 2, 0.25, 3, 10, 4.75, 100}
+		f := pool[g.pick("smallFloat", len(pool))]
+		if g.chance("negSF", 25) {
+			f = -f
+		}
+		return hs.FloatLit{V: f}
+	}
 	f := floatPool[g.pick("floatPool", len(floatPool))]
 	if g.chance("negF", 25) {
 		f = -f
@@ -336,7 +353,14 @@ func (g *G) literal(t hs.Type) hs.Expr {
 
 // common typed forms available for every type: call, index, field, if, match, block, try
 func (g *G) generic(t hs.Type, d int) (hs.Expr, bool) {
-	switch g.pick("generic", 12) {
+	sel := g.pick("generic", 12)
+	if g.c.Pure {
+		switch sel {
+		case 0, 1, 7, 9, 10:
+			return nil, false
+		}
+	}
+	switch sel {
 	case 0, 1:
 		if e, ok := g.callExpr(t, d); ok {
 			return e, true
@@ -438,6 +462,16 @@ func (g *G) intExpr(d int) hs.Expr {
 		default:
 			r = g.expr(hs.TInt, d-1)
 		}
+		if g.c.SmallNums {
+			switch op {
+			case "*":
+				l, r = g.smallInt(0, 12), g.smallInt(0, 12)
+			case "**":
+				l, r = g.smallInt(0, 6), g.smallInt(0, 5)
+			case "<<", ">>":
+				r = g.smallInt(0, 8)
+			}
+		}
 		g.feat("int-op")
 		return hs.Infix{Op: op, L: l, R: r, T: hs.TInt}
 	case 4:
@@ -526,6 +560,12 @@ func (g *G) floatExpr(d int) hs.Expr {
 			r = fl
 		} else {
 			r = g.expr(hs.TFloat, d-1)
+		}
+		if g.c.SmallNums && (op == "*" || op == "/") {
+			l = g.floatLit()
+			if op == "*" {
+				r = g.floatLit()
+			}
 		}
 		g.feat("float-op")
 		return hs.Infix{Op: op, L: l, R: r, T: hs.TFloat}
@@ -697,7 +737,7 @@ func (g *G) optExpr(t hs.Type, d int) hs.Expr {
 	case 0, 1:
 		return hs.Prefix{Op: "?", X: g.expr(*t.Elem, d-1), T: t}
 	case 2:
-		if g.c.Members {
+		if g.c.Members && !g.c.Pure {
 			n := []string{"pop", "last", "pop_front"}[g.pick("popKind", 3)]
 			lt := hs.TList(*t.Elem)
 			if vs := g.varsOf(lt, true); len(vs) > 0 || n == "last" {
@@ -816,7 +856,7 @@ func (g *G) valueBlock(t hs.Type, d int) *hs.Block {
 	g.inExpr++
 	defer func() { g.inExpr-- }()
 	b := &hs.Block{T: t}
-	if g.chance("blockStmts", 30) && g.budget > 10 {
+	if !g.c.Pure && g.chance("blockStmts", 30) && g.budget > 10 {
 		n := g.intn("nBlockStmts", 1, 2)
 		for i := 0; i < n; i++ {
 			b.Stmts = append(b.Stmts, g.stmt(1)...)
